@@ -131,11 +131,12 @@ Theorem C15_tree_meets_spec : forall sfx s x,
 Proof. exact tree_meets_spec_gen. Qed.
 Print Assumptions C15_tree_meets_spec.
 
-(* the destination-keyed file read by ArgumentParser.add_arguments(cls, dest) gives what the un-rooted file gives parse() *)
-Theorem C15_rooted_same : forall dest sfx s x,
-  str_in sfx four_suffixes = true -> config_loop_rooted_gen dest sfx s x = config_loop_gen sfx s x.
-Proof. exact rooted_same_gen. Qed.
-Print Assumptions C15_rooted_same.
+(* every route gives what the plain loop gives: constructor config_path= / --config_path x parse() with the un-rooted file /
+   ArgumentParser.add_arguments(cls, dest) with the file keyed by dest (the wiring of the routes is regenerated from the source) *)
+Theorem C15_routes_same : forall via a dest sfx s x,
+  str_in sfx four_suffixes = true -> config_run_gen via a dest sfx s x = config_loop_gen sfx s x.
+Proof. exact routes_same_gen. Qed.
+Print Assumptions C15_routes_same.
 
 (* non-vacuity: a nested instance inside the theorem's domain (enum, path, optional, tuple, list, nested class), and the
    model's answer on it for a yaml file; the same class with a List[Path] leaf is inside the quantifier but outside the
